@@ -145,6 +145,16 @@ func newSchema(tag string) *graphql.Schema {
 			"o": &graphql.ArgumentConfig{Type: pt}, "id": &graphql.ArgumentConfig{Type: graphql.ID},
 		}, Resolve: echoAndMutate},
 		"mut": &graphql.Field{Type: graphql.String, Args: mutArgs, Resolve: echoAndMutate},
+		// one named input type under every wrapper shape: equal literals at these positions must not share a variable
+		"opt":     &graphql.Field{Type: graphql.String, Args: graphql.FieldConfigArgument{"v": &graphql.ArgumentConfig{Type: graphql.Int}}, Resolve: echoAndMutate},
+		"req":     &graphql.Field{Type: graphql.String, Args: graphql.FieldConfigArgument{"v": &graphql.ArgumentConfig{Type: graphql.NewNonNull(graphql.Int)}}, Resolve: echoAndMutate},
+		"list":    &graphql.Field{Type: graphql.String, Args: graphql.FieldConfigArgument{"vs": &graphql.ArgumentConfig{Type: graphql.NewList(graphql.Int)}}, Resolve: echoAndMutate},
+		"listReq": &graphql.Field{Type: graphql.String, Args: graphql.FieldConfigArgument{"vs": &graphql.ArgumentConfig{Type: graphql.NewList(graphql.NewNonNull(graphql.Int))}}, Resolve: echoAndMutate},
+		"reqList": &graphql.Field{Type: graphql.String, Args: graphql.FieldConfigArgument{"vs": &graphql.ArgumentConfig{Type: graphql.NewNonNull(graphql.NewList(graphql.Int))}}, Resolve: echoAndMutate},
+		"nested":  &graphql.Field{Type: graphql.String, Args: graphql.FieldConfigArgument{"vs": &graphql.ArgumentConfig{Type: graphql.NewList(graphql.NewList(graphql.Int))}}, Resolve: echoAndMutate},
+		"optPt":   &graphql.Field{Type: graphql.String, Args: graphql.FieldConfigArgument{"p": &graphql.ArgumentConfig{Type: pt}}, Resolve: echoAndMutate},
+		"reqPt":   &graphql.Field{Type: graphql.String, Args: graphql.FieldConfigArgument{"p": &graphql.ArgumentConfig{Type: graphql.NewNonNull(pt)}}, Resolve: echoAndMutate},
+		"listPt":  &graphql.Field{Type: graphql.String, Args: graphql.FieldConfigArgument{"ps": &graphql.ArgumentConfig{Type: graphql.NewList(graphql.NewNonNull(pt))}}, Resolve: echoAndMutate},
 		"item": &graphql.Field{Type: itemT, Args: graphql.FieldConfigArgument{"id": &graphql.ArgumentConfig{Type: graphql.Int}},
 			Resolve: func(p graphql.ResolveParams) (interface{}, error) { return item{intArg(p, "id", 0)}, nil }},
 		"items": &graphql.Field{Type: graphql.NewList(itemT), Args: graphql.FieldConfigArgument{"n": &graphql.ArgumentConfig{Type: graphql.Int}, "from": &graphql.ArgumentConfig{Type: graphql.Int}},
@@ -211,6 +221,11 @@ func schemaDesc() *gq.SchemaDesc {
 			{Name: "tag", Type: "String"},
 			{Name: "echo", Type: "String", Args: []gq.ArgDesc{a("s", "String"), a("i", "Int"), a("f", "Float"), a("b", "Boolean"), a("l", "[Int]"), a("e", "Color"), a("o", "Pt"), a("id", "ID")}},
 			{Name: "mut", Type: "String", Args: mutArgs},
+			{Name: "opt", Type: "String", Args: []gq.ArgDesc{a("v", "Int")}}, {Name: "req", Type: "String", Args: []gq.ArgDesc{a("v", "Int!")}},
+			{Name: "list", Type: "String", Args: []gq.ArgDesc{a("vs", "[Int]")}}, {Name: "listReq", Type: "String", Args: []gq.ArgDesc{a("vs", "[Int!]")}},
+			{Name: "reqList", Type: "String", Args: []gq.ArgDesc{a("vs", "[Int]!")}}, {Name: "nested", Type: "String", Args: []gq.ArgDesc{a("vs", "[[Int]]")}},
+			{Name: "optPt", Type: "String", Args: []gq.ArgDesc{a("p", "Pt")}}, {Name: "reqPt", Type: "String", Args: []gq.ArgDesc{a("p", "Pt!")}},
+			{Name: "listPt", Type: "String", Args: []gq.ArgDesc{a("ps", "[Pt!]")}},
 			{Name: "item", Type: "Item", Args: []gq.ArgDesc{a("id", "Int")}},
 			{Name: "items", Type: "[Item]", Args: []gq.ArgDesc{a("n", "Int"), a("from", "Int")}},
 			{Name: "node", Type: "Node", Args: []gq.ArgDesc{a("id", "Int")}},
@@ -353,6 +368,19 @@ func families() [][]poolEntry {
 			e("mutargs", `{ item(id: 2) { ...G } } fragment G on Item { mut(o: {x: 5, y: 6}, os: [{y: 1}, {y: 2}]) }`, true),
 			ev("mutargs", `query Q($o: Pt, $l: [Int], $n: Nest) { mut(o: $o, l: $l, n: $n, ll: [[1], [2]]) }`, true, []string{"Q"},
 				V("o", map[string]interface{}{"y": 2}, "l", []interface{}{1, 2, 3}), V("n", map[string]interface{}{"l": []interface{}{1}, "ps": []interface{}{map[string]interface{}{"y": 1}}}), nil),
+		},
+		{ // the same literal at positions whose types differ only in wrappers (T, T!, [T], [T!], [T]!, [[T]]), both orders, across fragments
+			e("wrappers", `{ opt(v: 7) req(v: 7) }`, true), e("wrappers", `{ req(v: 7) opt(v: 7) }`, true),
+			e("wrappers", `{ opt(v: 3) list(vs: 3) }`, true), e("wrappers", `{ list(vs: 3) opt(v: 3) }`, true),
+			e("wrappers", `{ opt(v: 3) listReq(vs: 3) reqList(vs: 3) nested(vs: 3) req(v: 3) list(vs: 3) }`, true),
+			e("wrappers", `{ nested(vs: 3) reqList(vs: 3) list(vs: 3) req(v: 3) listReq(vs: 3) opt(v: 3) }`, true),
+			e("wrappers", `{ list(vs: [1, 2]) listReq(vs: [1, 2]) reqList(vs: [1, 2]) nested(vs: [1, 2]) }`, true),
+			e("wrappers", `{ nested(vs: [1, 2]) reqList(vs: [1, 2]) listReq(vs: [1, 2]) list(vs: [1, 2]) }`, true),
+			e("wrappers", `{ optPt(p: {y: 1}) reqPt(p: {y: 1}) listPt(ps: {y: 1}) }`, true), e("wrappers", `{ listPt(ps: {y: 1}) reqPt(p: {y: 1}) optPt(p: {y: 1}) }`, true),
+			e("wrappers", `{ opt(v: 7) ...F } fragment F on Query { req(v: 7) }`, true), e("wrappers", `{ ...F opt(v: 7) } fragment F on Query { req(v: 7) }`, true),
+			e("wrappers", `{ a: opt(v: 7) ... on Query { b: req(v: 7) c: list(vs: 7) } d: opt(v: 7) e: req(v: 7) }`, true),
+			e("wrappers", `{ a: req(v: 7) ... on Query { b: opt(v: 7) c: reqList(vs: 7) } d: req(v: 7) e: opt(v: 8) }`, true),
+			ev("wrappers", `query Q($v: Int!) { opt(v: $v) req(v: $v) a: opt(v: 5) b: req(v: 5) list(vs: [$v, 5]) c: list(vs: 5) }`, true, []string{"Q"}, V("v", 5), V("v", 6)),
 		},
 		{ // rejected requests: parse errors, validation errors, wrong literal types (errors are cached too)
 			e("invalid", `{ nope }`, true), e("invalid", `{ nope2 }`, true), e("invalid", `{`, true), e("invalid", `{ tag `, true),
